@@ -21,9 +21,17 @@ use std::str::FromStr;
 use fpdec::Decimal;
 
 fn dec(c: &str, n: &str) -> Decimal {
-    let c: i128 = c.parse().expect("bad coeff");
-    let n: u8 = n.parse().expect("bad nfd");
+    let c: i128 = c.parse().unwrap_or_else(|_| bad_input("coefficient", c));
+    let n: u8 = n.parse().unwrap_or_else(|_| bad_input("n_frac_digits", n));
+    if n > 18 {
+        bad_input("n_frac_digits", &n.to_string());
+    }
     Decimal::new_raw(c, n)
+}
+
+fn bad_input(what: &str, text: &str) -> ! {
+    eprintln!("dectest-driver: bad {}: {:?}", what, text);
+    std::process::exit(2)
 }
 
 fn show(d: Decimal) -> String {
